@@ -143,6 +143,16 @@ func freshNumber(r *core.Rand) numCase {
 	case 13:
 		return numCase{[]cty.Value{cty.PositiveInfinity, cty.NegativeInfinity, cty.NumberFloatVal(math.Inf(1)), cty.NumberFloatVal(math.Inf(-1)),
 			cty.NumberVal(new(big.Float).SetPrec(512).SetInf(true))}[r.Intn(5)], "infinity"}
+	case 14:
+		// decimal text of about 1 KiB: as a bound it lands around the decoder's limit for a refinements blob
+		if r.Bool() {
+			d := 940 + r.Intn(160)
+			sign := []string{"", "-"}[r.Intn(2)]
+			if r.Bool() {
+				return numCase{cty.MustParseNumberVal(fmt.Sprintf("%s%de%d", sign, 1+r.Intn(9), d)), "whole:text-near-1KiB"}
+			}
+			return numCase{cty.MustParseNumberVal(fmt.Sprintf("%s%de-%d", sign, 1+r.Intn(9), d)), "decimal:text-near-1KiB"}
+		}
 	}
 	nc := gen.Number(r)
 	return numCase{nc.V, "pool:" + nc.Class}
